@@ -65,3 +65,16 @@ Proof. exact kc_one_price. Qed.
 Theorem C10_atr_one_price_stream : forall p a xs o v, atr_new XROps p = Ok a ->
   atr_bar_outs XROps a (map (fun x => one_bar o v (Fin x)) xs) = atr_outs XROps a (map Fin xs).
 Proof. exact atr_one_stream. Qed.
+
+(* ... and bit-exactly on binary64 for every finite price (x - x = +0.0, |.| never -0.0, max(max(+0.0, a), a) = a) *)
+From Coq Require Import Floats.
+From TA Require Import Proofs.FloatErr Proofs.FloatOnePrice.
+Theorem C10_tr_one_price_binary64 : forall (t : @Tr PrimFloat.float) o v x, fin_trF t -> finF x ->
+  tr_next_bar FOps t (one_bar o v x) = tr_next FOps t x.
+Proof. exact tr_one_price_binary64. Qed.
+Theorem C10_atr_one_price_binary64 : forall (a : @Atr PrimFloat.float) o v x, fin_trF (atr_true_range a) -> finF x ->
+  atr_next_bar FOps a (one_bar o v x) = atr_next FOps a x.
+Proof. exact atr_one_price_binary64. Qed.
+Theorem C10_atr_one_price_stream_binary64 : forall p a xs o v, atr_new FOps p = Ok a -> Forall finF xs ->
+  atr_bar_outs FOps a (map (fun x => one_bar o v x) xs) = atr_outs FOps a xs.
+Proof. exact atr_one_stream_binary64. Qed.
